@@ -1,5 +1,6 @@
 import TlxVerif.Proofs.C14Class
 import TlxVerif.Model.C14Digests
+import TlxVerif.Proofs.C14LoadStore
 /-!
 C14 — the compress functions of the sources equal the compression functions of the standards.
 -/
@@ -70,6 +71,11 @@ theorem toBlocks_mem_length {α : Type} (B : Nat) : ∀ (n : Nat) (l : List α),
       · exact toBlocks_mem_length B n (l.drop B) (by rw [List.length_drop]; omega) b hb
     · simp at hb
 
+/-- the words of a block: a load helper that is right on `k`-byte strings is right on every block -/
+theorem map_blocks_congr {β : Type} (ld spec : Bytes → β) (k : Nat) (h : ∀ b : Bytes, b.length = k → ld b = spec b)
+    (buf : Bytes) : (toBlocks k buf).map ld = (toBlocks k buf).map spec :=
+  List.map_congr_left fun b hb => h b (toBlocks_mem_length k buf.length buf (Nat.le_refl _) b hb)
+
 /-- a left fold whose step functions agree on an invariant -/
 theorem foldl_congr_inv {α β : Type} (I : β → Prop) (f g : β → α → β) :
     ∀ (l : List α) (b : β), I b → (∀ b a, I b → a ∈ l → f b a = g b a) → (∀ b a, I b → a ∈ l → I (g b a)) →
@@ -130,7 +136,7 @@ theorem sha256_expand_eq (M : List (BitVec 32)) (hM : M.length = 16) :
 theorem sha256_compress_eq (st : List (BitVec 32)) (buf : Bytes) (hs : st.length = 8) (hb : buf.length = 64) :
     Model.SHA256.compress st buf = Spec.SHA256.compress st buf := by
   unfold Model.SHA256.compress Spec.SHA256.compress
-  rw [loadWords_eq_toBlocks (beWord 32) 4 16 (by omega) buf (by omega)]
+  rw [loadWords_eq_toBlocks Model.load32h 4 16 (by omega) buf (by omega), map_blocks_congr _ _ 4 load32h_eq]
   have hM : ((toBlocks 4 buf).map (beWord 32)).length = 16 := by
     rw [toBlocks_eq_map_range (by omega) 16 buf (by omega)]; simp
   rw [sha256_expand_eq _ hM]
@@ -259,7 +265,7 @@ theorem sha512_expand_eq (M : List (BitVec 64)) (hM : M.length = 16) :
 theorem sha512_compress_eq (st : List (BitVec 64)) (buf : Bytes) (hs : st.length = 8) (hb : buf.length = 128) :
     Model.SHA512.compress st buf = Spec.SHA512.compress st buf := by
   unfold Model.SHA512.compress Spec.SHA512.compress
-  rw [loadWords_eq_toBlocks (beWord 64) 8 16 (by omega) buf (by omega)]
+  rw [loadWords_eq_toBlocks _ 8 16 (by omega) buf (by omega), map_blocks_congr _ _ 8 load64h_eq]
   have hM : ((toBlocks 8 buf).map (beWord 64)).length = 16 := by
     rw [toBlocks_eq_map_range (by omega) 16 buf (by omega)]; simp
   rw [sha512_expand_eq _ hM]
@@ -394,7 +400,7 @@ theorem sha1_expand_eq (M : List (BitVec 32)) (hM : M.length = 16) :
 theorem sha1_compress_eq (st : List (BitVec 32)) (buf : Bytes) (hs : st.length = 5) (hb : buf.length = 64) :
     Model.SHA1.compress st buf = Spec.SHA1.compress st buf := by
   unfold Model.SHA1.compress Spec.SHA1.compress
-  rw [loadWords_eq_toBlocks (beWord 32) 4 16 (by omega) buf (by omega)]
+  rw [loadWords_eq_toBlocks Model.load32h 4 16 (by omega) buf (by omega), map_blocks_congr _ _ 4 load32h_eq]
   have hM : ((toBlocks 4 buf).map (beWord 32)).length = 16 := by
     rw [toBlocks_eq_map_range (by omega) 16 buf (by omega)]; simp
   simp only [sha1_expand_eq _ hM, sha1_rounds_eq _ st hs]
@@ -462,7 +468,7 @@ theorem md5_segment (X : List (BitVec 32)) (fn : BitVec 32 → BitVec 32 → Bit
 theorem md5_compress_eq (st : List (BitVec 32)) (buf : Bytes) (hs : st.length = 4) (hb : buf.length = 64) :
     Model.MD5.compress st buf = Spec.MD5.compress st buf := by
   unfold Model.MD5.compress Spec.MD5.compress
-  rw [loadWords_eq_toBlocks (leWord 32) 4 16 (by omega) buf (by omega)]
+  rw [loadWords_eq_toBlocks _ 4 16 (by omega) buf (by omega), map_blocks_congr _ _ 4 load32l_eq]
   generalize (toBlocks 4 buf).map (leWord 32) = X
   have e1 := md5_segment X Model.MD5.F 0 16 (by omega) (fun t h1 h2 => by simp; omega) st hs
   have e2 := md5_segment X Model.MD5.G 16 16 (by omega) (fun t h1 h2 => by
